@@ -54,6 +54,62 @@ CLAIMS = {
         technique="TLC-enumerated case tables + step-machine model of the batch generator, exact conformance replay (B3), TLC validation of recorded calls (B2)",
         engine="tlc-table",
     ),
+    "C08": dict(
+        category="model_checking",
+        text="spec/FitSession.tla models a fitting session with the minimiser as an adversary (arbitrary evaluation points, each of which moves the model parameters) and the epilogue of every minimiser name transcribed from tf_pwa/fit.py (bound installation/removal, set_trans_var, early exit through except_result, result construction), repeated fits and save -> load into a fresh model. TLC checks ResultEqualsModel, MinIsNllOfResult, InsideBounds, EveryMethodReturns and SaveLoadIdentity over all sessions of up to two fits x 12 method names x 3 stop kinds x 3 evaluations, with and without declared bounds. Every (previous method, method, stop) used by the tier is realised as real ConfigLoader.fit calls on a small three-chain model with one of seven constraint sets (fixed, tied, two-/one-sided bounds, Gaussian constraint); after every return the clauses of C08 are evaluated on the real objects (result vs model, NLL at the result vs reported minimum, not above start, fixed unchanged, tied equal, inside bounds) and result / parameters are written to a file and loaded into a freshly built model.",
+        design_ref="DESIGN.md 3.1 FitSession, 5/C08",
+        note="Trusted: TLC; scipy/Minuit report the best point they evaluated (asserted per fit); early exit injected through a user callback raising LargeNumberError; NLL comparisons at relative 1e-8; quick tier runs BFGS/CG/L-BFGS-B/Newton-CG-p (+2 two-fit sessions), thorough all 12 names incl. iminuit; Hessian-based minimisers on a model with few free parameters (they always run to convergence). Bounds left installed by Newton-type fits are recorded as an observation, not judged.",
+        technique="TLA+ fit-session model with adversarial minimiser model-checked by TLC; reachable sessions realised as real fits with observers (B1)",
+        engine="tlc-replay",
+    ),
+    "C12": dict(
+        category="model_checking",
+        text="Every cell of spec/Tables.tla is one TLC state: the Wigner small-d weight row of every (2j<=8, m, n); every Clebsch-Gordan coefficient with j1,j2 <= 2 (quick) / <= 4 (thorough) via prime-exponent vectors; every CG orthonormality relation; the delta-index gather lists; Blatt-Weisskopf and Legendre rows. TLC checks on every cell the theorems that validate the transcription (d(0)=1, d(pi) antidiagonal, symmetries, exact unitarity of d(pi/2), CG symmetries/anchors/orthonormality, recurrences). The tables are compared entry by entry with small_d_weight, delta_D_index, cg_coef, get_cg_coef and cg_table.json (exact, exhaustive for the stated spin bounds). Unitarity, the group law, small-d at sampled angles incl. 0 and pi and SU2M Euler-angle extraction on rotation-boost-rotation products are sampled numerically (exploration part) with references assembled from the TLC weights.",
+        design_ref="DESIGN.md 3.2 Tables, 5/C12; notes/C12.md",
+        note="Trusted: TLC's 32-bit integer evaluation with overflow detection, the spec's reading of Wigner's and Racah's formulas (cross-validated inside TLC and against sympy); numpy for the sampled part. Spins above 4 not enumerated. get_cg_coef's shortcut outside the triangle is reported as an observation, not judged.",
+        technique="TLC-evaluated exact tables with in-spec self-check theorems; entry-by-entry comparison (B3 exact); sampled numeric group-law / Euler-angle identities",
+        engine="tlc-table",
+    ),
+    "C04": dict(
+        category="exploration",
+        text="spec/ClosedForm.tla (EXTENDS Tables, INSTANCE LSCoupling) has one TLC state per scenario: every non-empty subset of the three chains of A->123, every J in 0..4 per active chain, coupling triples from a Gaussian-integer lattice (1330 quick / 4095 thorough scenarios over all 215 model structures). TLC proves the (l,s) coupling is unique in both decays, derives the factor (-1)^J from the documented helicity-coupling formula with the exact CG table, multiplies the couplings exactly and emits the exact Legendre and Blatt-Weisskopf coefficient tables. The harness assembles the closed form of the property in numpy FROM THOSE TABLES (own kinematics, running-width Breit-Wigner written out from the documentation) and compares it absolutely (no fitted constant) with the density of a real ConfigLoader model on sampled Dalitz events.",
+        design_ref="DESIGN.md 5/C04; notes/C04.md",
+        note="Trusted: numpy kinematics of the reference, TLC tables; conventions derived from the documentation before comparing (c_k = total*g_ls*g_ls, barrier radius d=3.0, q/q0, p/p0). Tolerance 1e-8*ref + 1e-11*(sum|A_k|)^2 (cancellation term). Masses, widths and events are sampled.",
+        technique="TLC-enumerated scenario space with exact tables from the spec; numpy closed form built from those tables vs the real model (B3 numeric)",
+        engine="tlc-scenario",
+    ),
+    "C19": dict(
+        category="model_checking",
+        text="Every card of a finite grammar of decay cards (3-body with 1-3 resonance slots of 1-2 candidates, shared and empty slots; 4-body cascade / two decay modes / branching; vector, scalar and baryon schemes; J^P sets; one option site per card: p_break, l_list, float, m_min/m_max) is one TLC state of spec/DecayCard.tla. TLC proves that the loader-shaped and the declarative tree construction agree, every kept chain leads from the top to exactly the finals through declared decays, a chain is dropped iff some decay has an empty allowed (l,s) set (LSCoupling instantiated) and that the denotation does not depend on how the card is written. The emitted table is compared exactly with ConfigLoader(dict) for all cards, loaded twice in shuffled and interleaved passes in one process; names, free sets and bounds on a stratified subset; 13 alternative spellings (aliases, includes, candidate lists, key order, YAML file) and as_config() -> reload on a smaller one.",
+        design_ref="DESIGN.md 3.2 DecayCard, 5/C19; notes/C19.md",
+        note="Trusted: TLC; the card grammar bounds (quick 5208 cards, thorough 40560); export held to chains and J/P only. Observation outside the statement (not judged): functools.lru_cache keyed by particle names lets a second load with other spins reuse coupling tables.",
+        technique="TLC enumeration of a finite decay-card grammar with declarative chain/selection/naming semantics; exhaustive table conformance of the real ConfigLoader (B3 exact)",
+        engine="tlc-table",
+    ),
+    "C01": dict(
+        category="exploration",
+        text="spec/Symmetry.tla declares the discrete quantifier domain: decay structures (Topology forms for n = 3, 4; one to three chains incl. different topologies; spins; parity-conserving / -violating vertices; identical pairs; validity = non-empty LSCoupling!Allowed at every vertex) and, as a TLC state space, every word over {RotX90, RotZ60, RotGen, BoostZ, BoostGen, Parity, Swap(i,j)} up to length 2 (quick) / 3 (thorough) with Parity enabled only for n = 3 or all vertices parity conserving and Swap only for declared identical particles. The harness builds ConfigLoader(dict) per structure, applies each word to phase-space events with its own numpy Lorentz group and compares densities and invariant masses. Events, couplings and generic group elements are sampled; the structure product is covered by a hash-thinned slice.",
+        design_ref="DESIGN.md 5/C01; notes/C01.md",
+        note="Trusted: TLC; the harness's numpy transformations; tf_pwa.phasespace as event source. Tolerance 1e-6*(max+median density)+1e-12 (tf-pwa's alignment angle goes through acos near 1: noise ~1e-8). Spins of finals <= 1, resonances/parent <= 2, n <= 4. One known finding (identical particles with spinning finals).",
+        technique="TLA+ scenario machine (Symmetry.tla) enumerated by TLC with the applicability conditions as enabling conditions; every scenario replayed numerically on the real code (B3 numeric)",
+        engine="tlc-scenario",
+    ),
+    "C02": dict(
+        category="exploration",
+        text="spec/Symmetry.tla models the bookkeeping choices as a step machine over (decay structure, chain order, option vector {align_ref, random_z, center_mass, only_left_angle}, event frame). TLC visits every state of a slice of the structure product (>= 2 chains, a spinning final particle incl. spin 1/2), checks the transcription Ref(order, leaf) of aligned_angle_ref_rule1, the non-vacuity theorem (the reference moves under some permutation exactly for the alignment-sensitive structures) and writes the admissibility table. The harness builds one ConfigLoader per replayed state, sets the same parameters by name, evaluates the same events (rest frame and boosted laboratory frame) and compares with the declared order / default options; tf-pwa's own reference choice is compared with Ref exactly.",
+        design_ref="DESIGN.md 5/C02; notes/C02.md",
+        note="Trusted: TLC, the harness's independent boost/rotation. Tolerance 1e-6*(max+median)+1e-12. Admissibility calibrated by probe: align_ref=center_mass needs rest-frame events or center_mass=True; r_boost=False outside the property. Identical-particle structures excluded (known C01 finding).",
+        technique="TLA+ bookkeeping machine (Symmetry.tla) enumerated by TLC; states replayed numerically, reference rule compared exactly (B3)",
+        engine="tlc-scenario",
+    ),
+    "C11": dict(
+        category="exploration",
+        text="spec/Kinematics.tla takes every cascade shape for n = 3, 4, 5 final particles from Topology!CF(n) (3 + 15 + 105), derives the independent variables HelicityAngle.build_data consumes / find_variable returns (invariant VarCount: 3n-4) and a step machine over integer masses for the parent-first range rule (NeverStuck, Allowed, ParentFirst, RuleComplete). Per shape the harness builds the real DecayChain, compares the variable list exactly, samples masses with the specification's rule and angles and requires build_data -> cal_angle -> find_variable to return the inputs to 1e-9 (phi mod 2 pi). Dalitz and LorentzVector identities are sampled numeric probes attached to this check.",
+        design_ref="DESIGN.md 5/C11; notes/C11.md",
+        note="Trusted: TLC, numpy. The discrete part (all 123 shapes) is exhaustive; masses, angles, four-vectors and velocities (incl. |v| -> 0 and 0.999) are sampled; the vector identities have no discrete content and are flagged as sampled probes in the evidence.",
+        technique="TLA+ spec (Kinematics.tla over Topology) model-checked by TLC; variable lists compared exactly, round trips sampled (B3)",
+        engine="tlc-table",
+    ),
 }
 
 NOT_YET = "check not built yet in this round (planned in DESIGN.md 5); not claimed until its specification is bound to the code"
